@@ -2151,6 +2151,12 @@ coap_read_session(coap_context_t *ctx, coap_session_t *session, coap_tick_t now)
       p = packet->payload;
       retry = bytes_read == (ssize_t)packet->length;
       while (bytes_read > 0) {
+        if (session->state == COAP_SESSION_STATE_NONE) {
+          /* session was closed by a message (Release, Abort) earlier in this read */
+          bytes_read = 0;
+          retry = 0;
+          break;
+        }
         if (session->partial_pdu) {
           size_t len = session->partial_pdu->used_size
                        + session->partial_pdu->hdr_size
